@@ -376,7 +376,6 @@ class BinaryExpression(TypedExpression):
             return chained
 
         left_str = self.left.rebuild(indent=indent, inline=True)
-        right_str = self.right.rebuild(indent=indent, inline=True)
 
         operator_newline = self.operator_gap_lines > 0
         operator_str = self.operator.rebuild(indent=indent)
@@ -393,6 +392,7 @@ class BinaryExpression(TypedExpression):
                     indent,
                     inline,
                 )
+            right_str = self.right.rebuild(indent=indent, inline=True)
             return self.add_trivia(
                 f"{left_str}{op_sep}{operator_str} {right_str}", indent, inline
             )
@@ -409,6 +409,9 @@ class BinaryExpression(TypedExpression):
         if not operator_str.startswith("\n"):
             # Ensure exactly one space before the operator (avoid double spaces)
             operator_str = " " + operator_str.lstrip()
+        # Rendered only where it is used: the branches above render the right
+        # operand themselves, and a second render doubles the work per level.
+        right_str = self.right.rebuild(indent=indent, inline=True)
         return self.add_trivia(f"{left_str}{operator_str} {right_str}", indent, inline)
 
 
